@@ -22,6 +22,8 @@ enum Driver {
     /// a Display that keeps writing its remaining fragments after one of them failed
     /// and returns the first error afterwards
     FmtSloppy,
+    /// write! whose format string is the bare literal #param of vcore::lits (the input)
+    FmtConst,
 }
 
 #[derive(Clone, Debug, Serialize, Deserialize)]
@@ -107,6 +109,12 @@ fn check_history(input: &[u8], h: &Hist) -> Result<bool, String> {
                 let res = if h.driver == Driver::Write {
                     s.write(rest)
                 } else {
+                    // a call without any buffer, or with only empty ones, consumes nothing and
+                    // must not disturb the stream
+                    let degenerate = if guard % 2 == 1 { s.write_vectored(&[]) } else { s.write_vectored(&[IoSlice::new(&[]), IoSlice::new(&[])]) };
+                    if !matches!(degenerate, Ok(0)) || log.borrow().calls.len() != calls_before {
+                        return Err(ctx(format!("write_vectored without data returned {degenerate:?} and made {} inner calls", log.borrow().calls.len() - calls_before)));
+                    }
                     let k = 1 + (h.param as usize % rest.len());
                     let bufs = [IoSlice::new(&[]), IoSlice::new(&rest[..k]), IoSlice::new(&[]), IoSlice::new(&rest[k..])];
                     s.write_vectored(&bufs)
@@ -203,7 +211,7 @@ fn check_history(input: &[u8], h: &Hist) -> Result<bool, String> {
                 }
             }
         }
-        Driver::Fmt | Driver::FmtLiteral | Driver::FmtFailing | Driver::FmtSloppy => {
+        Driver::Fmt | Driver::FmtLiteral | Driver::FmtFailing | Driver::FmtSloppy | Driver::FmtConst => {
             let text = std::str::from_utf8(input).map_err(|_| "fmt driver needs UTF-8 input (harness bug)".to_owned())?;
             let (a, b, cc) = split3(text, h.param);
             let calls_before = 0;
@@ -215,6 +223,13 @@ fn check_history(input: &[u8], h: &Hist) -> Result<bool, String> {
                     false,
                 ),
                 Driver::FmtSloppy => (write!(s, "{}", Sloppy(a, b, cc)), text.to_owned(), false),
+                Driver::FmtConst => {
+                    let i = h.param as usize;
+                    if vcore::lits::LITS.get(i).map(|l| l.as_bytes()) != Some(input) {
+                        return Err("bad case: the input of FmtConst must be literal #param".into());
+                    }
+                    (vcore::lits::write_lit(&mut *s, i, false), text.to_owned(), false)
+                }
                 _ => (write!(s, "{}{}{}", a, Failing(b), cc), format!("{a}{b}"), true),
             };
             let full = strip_bytes_vec(effective.as_bytes());
@@ -350,6 +365,40 @@ fn run(args: &Args, rep: &mut Report) {
         }
         acc
     });
+    // formatted writes whose format string is a bare literal
+    let accs_lit = rt::par(n, |w| {
+        let mut acc = Acc::new();
+        for (i, lit) in vcore::lits::LITS.iter().enumerate() {
+            if i % n != w {
+                continue;
+            }
+            for via_auto in [false, true] {
+                for script in &scripts {
+                    let h = Hist { hex: rt::hex(lit.as_bytes()), script: script.clone(), driver: Driver::FmtConst, via_auto, param: i as u64 };
+                    acc.eval();
+                    match rt::guarded(|| check_history(lit.as_bytes(), &h)) {
+                        Ok(nt) => {
+                            if nt {
+                                acc.nontrivial_distinct();
+                                acc.sample(|| hist_json(lit.as_bytes(), &h));
+                            }
+                        }
+                        Err(m) => {
+                            acc.fail("literal-format-strings", hist_json(lit.as_bytes(), &h), m);
+                            return acc;
+                        }
+                    }
+                }
+            }
+        }
+        acc
+    });
+    rep.add(
+        "literal-format-strings",
+        true,
+        &format!("write!(stream, <literal>) for {} escape-rich literals x {} scripts x 2 stream kinds", vcore::lits::LITS.len(), scripts.len()),
+        accs_lit,
+    );
     rep.add(
         "exhaustive-scripts",
         true,
